@@ -78,17 +78,30 @@ def small_texts():
     out.append(SMALL.format(c1="imp:n=1 imp:p=1 u=-2", c2="imp:n=2 imp:p=1", c3="imp:n=0 imp:p=0", data="vol no 2j 7\nfill j 2\n"))
     out.append(SMALL.format(c1="imp:n,p=1", c2="imp:n,p=1 u=0", c3="imp:n,p=0", data=""))
     out.append(SMALL.format(c1="u=5", c2="u=5 lat=2 fill=6", c3="u=6", data="imp:n 1 2r\nimp:p 1 1 0\n"))
+    # importance shapes: shared entries on every cell / some cells, three particles, shared data-block cards
+    out.append(SMALL.format(c1="imp:n,p=1", c2="imp:n,p=2", c3="imp:n,p=0", data=""))
+    out.append(SMALL.format(c1="imp:n,p,e=1", c2="imp:n,p,e=1 vol=2", c3="imp:n,p,e=0", data="").replace("mode n p", "mode n p e"))
+    out.append(SMALL.format(c1="imp:n,p=1 imp:e=2", c2="imp:n=1 imp:p,e=3", c3="imp:n,p,e=0", data="").replace("mode n p", "mode n p e"))
+    out.append(SMALL.format(c1="", c2="vol=2", c3="", data="imp:n,p,e 1 2 0\n").replace("mode n p", "mode n p e"))
+    out.append(SMALL.format(c1="", c2="", c3="u=3", data="imp:n,e 1 1 0\nimp:p 2 2 0\n").replace("mode n p", "mode n p e"))
     return out
 
 
-def gen_ops(rng, ncells, mode, numbers, unis, nsurf, length=None):
-    """a VALID history: cell insertions, deletions, reorderings and per-cell data edits"""
+def gen_ops(rng, ncells, mode, numbers, unis, nsurf, length=None, imp_bias=0.0):
+    """a VALID history: cell insertions, deletions, reorderings, per-cell data edits and observations"""
     n = ncells
     ops = []
     used = set(numbers)
     unis = list(unis) or [7]
     for _ in range(length if length is not None else rng.randint(1, 5)):
         r = rng.random()
+        if rng.random() < imp_bias:
+            # a per-cell importance edit that makes one particle differ from the others / equal to them again
+            ops.append(["imp", rng.randrange(n), rng.choice(mode), float(rng.choice([0, 1, 2, 3, 8, 0.5]))])
+            continue
+        if rng.random() < 0.06:
+            ops.append(["observe", rng.randrange(n)])
+            continue
         if r < 0.18:
             num = max(used) + rng.randint(1, 5)
             used.add(num)
@@ -129,8 +142,43 @@ def gen_ops(rng, ncells, mode, numbers, unis, nsurf, length=None):
     return ops
 
 
+def shape_importances(rng, gp):
+    """importance shapes the placement logic is sensitive to: three-particle modes, particles with equal vectors
+    (printed together on one data-block card), entries shared by several particles on every cell / some cells"""
+    r = rng.random()
+    if r < 0.35:
+        return "default"
+    if rng.random() < 0.5 and "e" not in gp["mode"]:
+        gp["mode"] = gp["mode"] + ["e"]
+        if "p" not in gp["mode"] and rng.random() < 0.5:
+            gp["mode"].insert(1, "p")
+    mode = gp["mode"]
+    for c in gp["cells"]:
+        for m in mode:
+            c["imp"].setdefault(m, float(rng.choice([0, 1, 1, 2, 4])))
+    if len(mode) < 2:
+        return "default"
+    kind = rng.choice(["all-equal", "all-equal", "two-equal", "per-cell-groups"])
+    if kind == "all-equal":
+        for c in gp["cells"]:
+            for m in mode:
+                c["imp"][m] = c["imp"][mode[0]]
+    elif kind == "two-equal":
+        a, b = rng.sample(mode, 2)
+        for c in gp["cells"]:
+            c["imp"][b] = c["imp"][a]
+    else:
+        for c in gp["cells"]:
+            if rng.random() < 0.6:
+                a, b = rng.sample(mode, 2)
+                c["imp"][b] = c["imp"][a]
+    gp["imp_share"] = rng.choice(["always", "always", None, "never"])
+    return kind + ":" + str(gp["imp_share"])
+
+
 def gen_problem(rng):
     gp = genprob.generate(rng, features=FEATURES)
+    shape_importances(rng, gp)
     style = "plain" if rng.random() < 0.85 else "random"
     limit = 128 if rng.random() < 0.8 else 80
     text = genprob.render(gp, rng, limit, style)
@@ -149,26 +197,35 @@ def gen_cases(chk):
         for c in d.get("cases", [d.get("case")] if d.get("case") else []):
             cases.append(dict(c, src="corpus:" + os.path.basename(f)))
     ncorpus = len(cases)
-    # 2. small hand-made shapes: all 32 flag vectors x every single operation of a small alphabet (exhaustive)
+    # 2. small hand-made shapes x every single operation of a small alphabet x all 32 flag vectors (exhaustive):
+    #    flags, WRITE, the operation, WRITE again — the object model after a write must still write a correct file
     alphabet = [[], [["remove", 0]], [["remove", 1]], [["move_end", 0]], [["reorder", [2, 0, 1]]],
-                [["append", {"number": 9, "surf": 0, "imp": {"n": 1.0, "p": 2.0}, "vol": 4.0, "u": 2, "fill": None, "lat": None}]],
+                [["append", {"number": 9, "surf": 0, "imp": {"n": 1.0, "p": 2.0, "e": 2.0}, "vol": 4.0, "u": 2, "fill": None, "lat": None}]],
                 [["append", {"number": 9, "surf": 0, "imp": {"n": 1.0}, "vol": None, "u": None, "fill": None, "lat": None}]],
-                [["imp", 1, "p", 3.0]], [["vol", 1, 2.0]], [["del_vol", 0]], [["u", 2, 2]], [["u", 0, 9]], [["fill", 0, 2]],
-                [["fill", 1, None]], [["lat", 2, 2]], [["lat", 1, None]], [["vol_calc", False]], [["imp_all", 0, 2.0]]]
+                [["imp", 1, "p", 3.0]], [["imp", 2, "n", 8.0]], [["imp", 0, "e", 5.0]], [["vol", 1, 2.0]], [["del_vol", 0]],
+                [["u", 2, 2]], [["u", 0, 9]], [["fill", 0, 2]],
+                [["fill", 1, None]], [["lat", 2, 2]], [["lat", 1, None]], [["vol_calc", False]], [["imp_all", 0, 2.0]],
+                [["observe", 1]]]
     nsmall = 0
     for text in small_texts():
+        three = "mode n p e" in text
         for ops in alphabet:
+            ops = [o if o[0] != "append" or three else ["append", dict(o[1], imp={k: v for k, v in o[1]["imp"].items() if k != "e"})] for o in ops]
+            if not three and any(o[0] == "imp" and o[2] == "e" for o in ops):
+                continue
             for fl in ALL_FLAGS:
-                cases.append({"text": text, "limit": 128, "ops": ops + [["flags", fl], ["write"]], "src": "small"})
+                cases.append({"text": text, "limit": 128, "ops": [["flags", fl], ["write"]] + ops + [["write"]], "src": "small"})
                 nsmall += 1
-    # 3. MontePy's own fixtures: every flag vector
+    # 3. MontePy's own fixtures: every flag vector, then the opposite vector, then back (switching back and forth)
     nfix = 0
     fx = fixtures()
     for name, text in fx:
         for fl in (ALL_FLAGS if chk.thorough else ALL_FLAGS[:: 3] + [ALL_FLAGS[-1]]):
-            cases.append({"text": text, "limit": 128, "ops": [["flags", fl], ["write"]], "src": "fixture:" + name})
+            inv = [not b for b in fl]
+            cases.append({"text": text, "limit": 128, "ops": [["flags", fl], ["write"], ["flags", inv], ["write"], ["flags", fl], ["write"]],
+                          "src": "fixture:" + name})
             nfix += 1
-    # 4. generated problems x histories x ALL 32 flag vectors
+    # 4. generated problems x histories x ALL 32 flag vectors: history, flags, WRITE, further edits, WRITE (, flags, WRITE)
     rng = chk.rng("problems")
     nprob = chk.pick(48, 1400)
     ngen = 0
@@ -176,23 +233,37 @@ def gen_cases(chk):
         text, limit, info = gen_problem(rng)
         ops = gen_ops(rng, info["ncells"], info["mode"], info["numbers"], info["unis"], info["nsurf"],
                       length=0 if i % 4 == 0 else None)
+        n = info["ncells"] + sum(1 if o[0] == "append" else -1 if o[0] == "remove" else 0 for o in ops)
+        nums = info["numbers"] + [o[1]["number"] for o in ops if o[0] == "append"]
+        ops_b = gen_ops(rng, n, info["mode"], nums, info["unis"], info["nsurf"], length=rng.randint(1, 2), imp_bias=0.5)
+        tail = []
+        if rng.random() < 0.3:
+            tail = [["flags", [rng.choice([True, False, None]) for _ in CLASSES]], ["write"]]
         for fl in ALL_FLAGS:
-            cases.append({"text": text, "limit": limit, "ops": ops + [["flags", fl], ["write"]], "src": "generated"})
+            cases.append({"text": text, "limit": limit, "ops": ops + [["flags", fl], ["write"]] + ops_b + [["write"]] + tail, "src": "generated"})
             ngen += 1
-    # 5. long histories with several writes: switching back and forth, edits between writes
+    # 5. long histories over {edit, flag change, WRITE, observation}: the flags are sticky (set once, then changed one or
+    #    two at a time now and then), every segment ends in a write, every written file is judged
     rng = chk.rng("histories")
-    nhist = chk.pick(160, 5000)
+    nhist = chk.pick(220, 6000)
     for i in range(nhist):
         text, limit, info = gen_problem(rng)
-        ops = []
+        ops = [["flags", [rng.random() < 0.5 for _ in CLASSES]]]
+        if rng.random() < 0.5:
+            ops.append(["write"])
         n, nums = info["ncells"], list(info["numbers"])
-        for _ in range(rng.randint(2, 4)):
-            seg = gen_ops(rng, n, info["mode"], nums + [o[1]["number"] for o in ops if o[0] == "append"], info["unis"], info["nsurf"], length=rng.randint(0, 3))
+        for _ in range(rng.randint(2, 5)):
+            seg = gen_ops(rng, n, info["mode"], nums + [o[1]["number"] for o in ops if o[0] == "append"], info["unis"], info["nsurf"],
+                          length=rng.randint(0, 3), imp_bias=0.35)
             for o in seg:
                 n += 1 if o[0] == "append" else -1 if o[0] == "remove" else 0
             ops += seg
-            fl = [rng.choice([True, False, None]) for _ in CLASSES]
-            ops += [["flags", fl], ["write"]]
+            if rng.random() < 0.35:
+                fl = [None] * len(CLASSES)
+                for k in rng.sample(range(len(CLASSES)), rng.randint(1, 2)):
+                    fl[k] = rng.random() < 0.5
+                ops.append(["flags", fl])
+            ops.append(["write"])
         cases.append({"text": text, "limit": limit, "ops": ops, "src": "history"})
     chk.units["U-celldata"] = {"corpus": ncorpus, "small_exhaustive": nsmall, "fixtures": nfix, "generated_x32": ngen,
                                "histories": nhist, "fixture_files": len(fx)}
@@ -242,6 +313,8 @@ def model_op(op, pre):
         return ["vol", op[1], ci.frac(op[2])]
     if name == "del_vol":
         return ["vol", op[1], None]
+    if name == "observe":
+        return ["observe"]
     return op
 
 
